@@ -6,6 +6,11 @@ ids = [json.loads(l)["id"] for l in open(os.path.join(HERE, "properties.jsonl"))
 
 # id -> (category, technique, level text, level note, design ref)
 CLAIMED = {
+ "C11": ("exploration",
+         "model-based stateful property testing: generated op sequences over commit / detached commit / clear / resolve-epoch (winner chosen by the delivery service) / stale deliveries, checked against an explicit pending-commit state machine and canonical state equality",
+         "An explicit model of who holds which pending or detached commit predicts the outcome of every call for racing members; building a commit may change only the pending-commit slot (+ consumed handshake key), apply-vs-echo must give equal states, losers drop their pending commit, old or stale commits are rejected without change, and all members agree after each resolved epoch.",
+         "Membership fixed after set-up (2-4 members). Uses hook Group::verif_state.",
+         "DESIGN.md §4 C11"),
  "C04": ("exploration",
          "stateful property-based testing with fault-style message injection; oracle = canonical full-state equality (hook) before/after every rejected call, on a clone and on the member, then acceptance of the genuine message and continued N-way agreement",
          "Generated histories with injected messages that must be rejected at every pipeline stage (field-addressed corruptions of app/proposal/commit messages in both wire formats, duplicates, own messages, old-epoch replays, commits with a missing PSK or a refused credential, corrupted commits while holding a pending commit / update / cached proposals) and refused builds; the complete member state (public, private, secrets incl. ratchets, pending parts, prior-epoch cache) must be canonically identical before and after, and the genuine traffic must still be accepted.",
